@@ -139,14 +139,27 @@ theorem flushed_module (env : Env) (m : Module) (st st' : St) (r : String × Str
 /-! ### 5. marker iff feature: functions
 
 `function_markers` as proposed — with `Spec.functionKeys` and no condition on the result types — is
-false of the model: `Spec.resultKeys` asks for "result without type" only when every typed result is
-`union []` (under `Final`s), but the generator renders more types as the empty string (`rendersEmptyM`:
-unions all of whose members render empty, type variables whose converted name is empty), and the
-marker appears for all of them. -/
+false of the model: `Spec.resultKeys` asks for "result without type" when every typed result
+`Spec.rendersEmpty` (unions all of whose members render empty, under `Final`s), but the generator
+renders one more kind of type as the empty string (`rendersEmptyM`): type variables whose converted
+name is empty (`__` under the Safe-DS naming convention), and the marker appears for them too.
+(The former counterexample `union [union []]` is now covered by `Spec.rendersEmpty`, see below.) -/
 
 private def gBad : Function :=
   { id := "m/g", name := "g", isPublic := true,
+    results := [{ id := "m/g/r", name := "r", type := some (.typeVar "__") }] }
+
+/-- the former counterexample: specification and generator now agree on it -/
+private def gNested : Function :=
+  { id := "m/g", name := "g", isPublic := true,
     results := [{ id := "m/g/r", name := "r", type := some (.union [.union []]) }] }
+
+example : (match createFunctionString ⟨{}, true⟩ gNested "" false false {} with
+    | .ok (text, st') => (text, st'.todos)
+    | .error _ => ("", [])) = ("// TODO Result type information missing.\n@Pure\nfun g()", []) := by decide
+example : Spec.functionKeys gNested false gNested.typeVars = ["result without type"] := by decide
+example : rendersEmptyM true (.union [.union []]) = true ∧ Spec.rendersEmpty (.union [.union []]) = true := by
+  decide
 
 /-- counterexample: all hypotheses of `function_markers` hold (empty pending set, not re-exported, no
     parameters), the stub carries the marker "result without type", the specification's key set is empty -/
@@ -154,8 +167,8 @@ example : (match createFunctionString ⟨{}, true⟩ gBad "" false false {} with
     | .ok (text, st') => (text, st'.todos)
     | .error _ => ("", [])) = ("// TODO Result type information missing.\n@Pure\nfun g()", []) := by decide
 example : Spec.functionKeys gBad false gBad.typeVars = [] := by decide
-example : rendersEmptyM true (.union [.union []]) = true ∧ Spec.rendersEmpty (.union [.union []]) = false := by
-  decide
+example : rendersEmptyM true (.typeVar "__") = true ∧ Spec.rendersEmpty (.typeVar "__") = false ∧
+    mk_tvNonempty true (.typeVar "__") = false := by decide
 
 /-- `function_markers` as proposed: `Spec.functionKeys`, no condition on the result types -/
 def FunctionMarkersProposed : Prop :=
@@ -218,8 +231,25 @@ theorem function_markers_proposed_false : ¬ FunctionMarkersProposed := by
       rw [h1, h2] at hnd
       simp at hnd
 
-/-- a second kind of type the model renders as `""`: a type variable whose converted name is empty -/
-example : rendersEmptyM true (.typeVar "__") = true ∧ Spec.rendersEmpty (.typeVar "__") = false := by decide
+/-- the same inside a union: every member renders empty in the model, not in the specification -/
+example : rendersEmptyM true (.union [.typeVar "__", .union []]) = true ∧
+    Spec.rendersEmpty (.union [.typeVar "__", .union []]) = false := by decide
+
+/-- `rendersEmptyM` and `Spec.rendersEmpty` differ only through such type variables: they agree on
+    every type in which no type variable with an empty converted name sits under unions / `Final`s
+    (`mk_tvNonempty`), in particular on every type without type variables -/
+theorem rendersEmpty_agree (safe : Bool) (t : AType) (h : mk_tvNonempty safe t = true) :
+    rendersEmptyM safe t = Spec.rendersEmpty t :=
+  mk_rendersEmptyM_eq safe t h
+
+theorem rendersEmpty_agree_of_noTypeVar (safe : Bool) (t : AType) (h : mk_hasTypeVar t = false) :
+    rendersEmptyM safe t = Spec.rendersEmpty t :=
+  mk_rendersEmptyM_eq_of_noTypeVar safe t h
+
+/-- and the specification's notion always implies the model's -/
+theorem rendersEmpty_sound (safe : Bool) (t : AType) (h : Spec.rendersEmpty t = true) :
+    rendersEmptyM safe t = true :=
+  rendersEmptyM_of_rendersEmpty safe t h
 
 /-- the strongest true variant: marker iff feature w.r.t. `functionKeysM`, which is `Spec.functionKeys`
     with `rendersEmptyM` (the types the model renders as `""`) in place of `Spec.rendersEmpty` -/
@@ -245,8 +275,8 @@ theorem function_markers_model (env : Env) (f : Function) (indent : String) (isM
     by rw [hst]⟩
 
 /-- `function_markers` under the extra hypothesis that the two notions of "renders empty" agree on the
-    result types (`PlainResults`; e.g. no result type is a non-empty union of empty unions) -/
-theorem function_markers_partial (env : Env) (f : Function) (indent : String) (isMethod inRe : Bool)
+    result types (`PlainResults`) -/
+theorem function_markers_of_agree (env : Env) (f : Function) (indent : String) (isMethod inRe : Bool)
     (st st' : St) (text : String)
     (h : createFunctionString env f indent isMethod inRe st = .ok (text, st'))
     (h0 : st.todos = []) (hnm : isMethod = true ∨ inRe = true ∨ f.reexportedBy = [])
@@ -267,6 +297,52 @@ theorem function_markers_partial (env : Env) (f : Function) (indent : String) (i
   rw [functionKeysM_eq isMethod _ hres] at this
   exact this
 
+/-- `function_markers` under a syntactic hypothesis on the result types: no type variable whose
+    converted name is empty sits under the unions / `Final`s of a result type (`mk_tvNonempty`; true in
+    particular when no such type variable occurs at all).  (Statement changed: the hypothesis was
+    `rendersEmptyM env.safe t = Spec.rendersEmpty t`; that variant is `function_markers_of_agree`.) -/
+theorem function_markers_partial (env : Env) (f : Function) (indent : String) (isMethod inRe : Bool)
+    (st st' : St) (text : String)
+    (h : createFunctionString env f indent isMethod inRe st = .ok (text, st'))
+    (h0 : st.todos = []) (hnm : isMethod = true ∨ inRe = true ∨ f.reexportedBy = [])
+    (hps : ∀ p ∈ f.params, Spec.optionalIsTyped p = true)
+    (hres : ∀ r ∈ f.results, ∀ t, r.type = some t → mk_tvNonempty env.safe t = true) :
+    ∃ keys rest, keys.Nodup ∧
+      (∀ k, k ≠ "internal class as type" →
+        (k ∈ keys ↔ k ∈ Spec.functionKeys f isMethod
+          (f.typeVars.filter fun tv =>
+            !isMethod || !st.classGenerics.contains (escapeKeyword (convertName tv.name env.safe))))) ∧
+      ("internal class as type" ∈ keys → functionInternal f = true) ∧
+      (∀ k ∈ keys, (assocGet? Generated.todoMessages k).isSome) ∧
+      text = todoBlock indent keys ++ rest ∧
+      (∃ funcParams tvs resultString, rest = functionRest env f indent funcParams tvs resultString) ∧
+      pyStartsWith rest (indent ++ "// TODO") = false ∧
+      st'.todos = [] :=
+  function_markers_of_agree env f indent isMethod inRe st st' text h h0 hnm hps
+    (mk_plainResults_of_tvNonempty hres)
+
+/-- a function whose only result is `None` gets no result list and no "result without type" marker:
+    the result part is empty and the state untouched -/
+theorem only_none_result_no_marker (env : Env) (rs : List Result) (st : St)
+    (h : Spec.onlyNoneResult rs = true) : createResultString env rs st = .ok ("", st) := by
+  rw [mk_createResultString_eq, if_pos h]
+  rfl
+
+/-- conversely, unless the only result is `None`, every typed result is rendered (no early return at a
+    `None` result) and the markers of all their types are pending afterwards -/
+theorem result_markers (env : Env) (rs : List Result) (st st' : St) (s : String)
+    (h : createResultString env rs st = .ok (s, st')) (k : String) (hk : k ≠ "internal class as type") :
+    k ∈ st'.todos ↔ (k ∈ st.todos ∨ k ∈ resultKeysM env.safe rs) :=
+  (createResultString_grows env rs st s st' h).mem k hk
+
+theorem result_markers_spec (env : Env) (rs : List Result) (st st' : St) (s : String)
+    (h : createResultString env rs st = .ok (s, st'))
+    (hres : ∀ r ∈ rs, ∀ t, r.type = some t → mk_tvNonempty env.safe t = true)
+    (k : String) (hk : k ≠ "internal class as type") :
+    k ∈ st'.todos ↔ (k ∈ st.todos ∨ k ∈ Spec.resultKeys rs) := by
+  rw [← resultKeysM_eq (mk_plainResults_of_tvNonempty hres)]
+  exact result_markers env rs st st' s h k hk
+
 /-- the state after a function differs from the state before only in the log entry, the (emptied)
     pending set, and `imports` / `outside` -/
 theorem function_frame (env : Env) (f : Function) (indent : String) (isMethod inRe : Bool)
@@ -278,10 +354,21 @@ theorem function_frame (env : Env) (f : Function) (indent : String) (isMethod in
                     outside := st'.outside } :=
   (createFunctionString_markers env f indent isMethod inRe st h0 hnm hps text st' h).1
 
-/-! ### 6. marker iff feature: attributes (same defect of `Spec.rendersEmpty`) -/
+/-! ### 6. marker iff feature: attributes (same difference between `rendersEmptyM` and `Spec.rendersEmpty`;
+an attribute whose type *is* a type variable is skipped, so the type variable sits inside a union) -/
 
 private def aBad : Attribute :=
+  { id := "m/C/x", name := "x", isPublic := true, isStatic := false, type := some (.union [.typeVar "__"]) }
+
+/-- the former counterexample: specification and generator now agree on it -/
+private def aNested : Attribute :=
   { id := "m/C/x", name := "x", isPublic := true, isStatic := false, type := some (.union [.union []]) }
+
+example : (match createAttribute ⟨{}, true⟩ aNested "    " {} with
+    | .ok (text, st') => (text, st'.todos)
+    | .error _ => (none, [])) = (some "    // TODO Attribute has no type information.\n    attr x", []) := by
+  decide
+example : Spec.attributeKeys aNested = ["attr without type"] := by decide
 
 example : (match createAttribute ⟨{}, true⟩ aBad "    " {} with
     | .ok (text, st') => (text, st'.todos)
@@ -356,7 +443,7 @@ theorem attribute_markers_model (env : Env) (a : Attribute) (inner : String) (st
     createAttribute_markers env a inner st h0 (some text) st' h text rfl
   exact ⟨keys, _, h1, h2, h3, h4, h5, ⟨ty, rfl⟩, attributeRest_not_marker env a inner ty, by rw [hst]⟩
 
-theorem attribute_markers_partial (env : Env) (a : Attribute) (inner : String) (st st' : St) (text : String)
+theorem attribute_markers_of_agree (env : Env) (a : Attribute) (inner : String) (st st' : St) (text : String)
     (h : createAttribute env a inner st = .ok (some text, st')) (h0 : st.todos = [])
     (hty : ∀ t, a.type = some t → rendersEmptyM env.safe t = Spec.rendersEmpty t) :
     ∃ keys rest, keys.Nodup ∧
@@ -370,6 +457,23 @@ theorem attribute_markers_partial (env : Env) (a : Attribute) (inner : String) (
   have := attribute_markers_model env a inner st st' text h h0
   rw [attributeKeysM_eq hty] at this
   exact this
+
+/-- `attribute_markers` under the syntactic hypothesis `mk_tvNonempty` on the attribute's type
+    (statement changed: the hypothesis was `rendersEmptyM env.safe t = Spec.rendersEmpty t`; that variant
+    is `attribute_markers_of_agree`) -/
+theorem attribute_markers_partial (env : Env) (a : Attribute) (inner : String) (st st' : St) (text : String)
+    (h : createAttribute env a inner st = .ok (some text, st')) (h0 : st.todos = [])
+    (hty : ∀ t, a.type = some t → mk_tvNonempty env.safe t = true) :
+    ∃ keys rest, keys.Nodup ∧
+      (∀ k, k ≠ "internal class as type" → (k ∈ keys ↔ k ∈ Spec.attributeKeys a)) ∧
+      ("internal class as type" ∈ keys → attributeInternal a = true) ∧
+      (∀ k ∈ keys, (assocGet? Generated.todoMessages k).isSome) ∧
+      text = todoBlock inner keys ++ rest ∧
+      (∃ attrType, rest = attributeRest env a inner attrType) ∧
+      pyStartsWith rest (inner ++ "// TODO") = false ∧
+      st'.todos = [] :=
+  attribute_markers_of_agree env a inner st st' text h h0
+    (fun t ht => mk_rendersEmptyM_eq env.safe t (hty t ht))
 
 /-! ### 7. classes (beyond the specification file, which has no key set for classes)
 
@@ -420,10 +524,33 @@ example : (match createFunctionString ⟨{}, true⟩ fEx "" false false {} with
     these five keys -/
 example : ∀ p ∈ fEx.params, Spec.optionalIsTyped p = true := by decide
 example : fEx.reexportedBy = [] := rfl
-example : ∀ r ∈ fEx.results, ∀ t, r.type = some t → rendersEmptyM true t = Spec.rendersEmpty t := by
+example : ∀ r ∈ fEx.results, ∀ t, r.type = some t → mk_tvNonempty true t = true := by
   intro r hr; cases hr
 example : Spec.functionKeys fEx false fEx.typeVars =
     ["no tuple support", "OPT_POS_ONLY", "param without type", "variadic", "result without type"] := by decide
+
+/-- results: a lone `None` result gives neither a result list nor a marker; otherwise every typed result
+    is rendered, `None` included, and the markers of all result types appear -/
+private def gNone : Function :=
+  { id := "m/g", name := "g", isPublic := true,
+    results := [{ id := "m/g/r", name := "r", type := some (.named "None" "builtins.None") }] }
+private def gTwo : Function :=
+  { id := "m/g", name := "g", isPublic := true,
+    results := [{ id := "m/g/r", name := "r", type := some (.named "None" "builtins.None") },
+                { id := "m/g/s", name := "s", type := some (.tuple [.named "int" "builtins.int"]) }] }
+
+example : Spec.onlyNoneResult gNone.results = true ∧ Spec.onlyNoneResult gTwo.results = false := by decide
+example : (match createFunctionString ⟨{}, true⟩ gNone "" false false {} with
+    | .ok (text, st') => (text, st'.todos)
+    | .error _ => ("", [])) = ("@Pure\nfun g()", []) := by decide
+example : Spec.functionKeys gNone false gNone.typeVars = [] := by decide
+example : (match createFunctionString ⟨{}, true⟩ gTwo "" false false {} with
+    | .ok (text, st') => (text, st'.todos)
+    | .error _ => ("", [])) =
+    ("// TODO Safe-DS does not support tuple types.\n@Pure\nfun g() -> (r: Nothing?, s: Tuple<Int>)", []) := by
+  decide
+example : Spec.functionKeys gTwo false gTwo.typeVars = ["no tuple support"] := by decide
+example : ∀ r ∈ gTwo.results, ∀ t, r.type = some t → mk_tvNonempty true t = true := by decide
 
 /-- `typeStr` on a nested type: keys added to a non-empty pending set, no duplicates -/
 example : (match typeStr ⟨{}, true⟩ (.set [.tuple [.unknown], .list [.unknown, .unknown]]) { todos := ["unknown"] } with
@@ -467,6 +594,31 @@ example : (match createClassString ⟨{}, true⟩ 3 cEx "" false {} with
      "// TODO Safe-DS does not support multiple inheritance.\n" ++
      "class C(\n    x: Int\n) sub A, B", []) := by decide
 example : (ctorKeys cEx, genericKeys cEx, inheritanceKeys cEx) =
+    (["REQ_NAME_ONLY"], [], ["multiple_inheritance"]) := by decide
+
+/-- the same class with a keyword-named constructor type variable and a keyword-named superclass: the
+    names are back-quoted in the generics, the parameter type and the superclass list; the two marker
+    blocks are unchanged -/
+private def cKwInit : Function :=
+  { cExInit with
+    typeVars := [{ name := "from", upperBound := none }],
+    params := [
+      { id := "m/C/__init__/self", name := "self", isOptional := false, default := .none,
+        assignedBy := .implicit, type := none },
+      { id := "m/C/__init__/x", name := "x", isOptional := false, default := .none, assignedBy := .nameOnly,
+        type := some (.typeVar "from") }] }
+private def cKw : Class :=
+  { id := "m/C", name := "C", isPublic := true, superclasses := ["m.A", "m.in"], ctor := some cKwInit }
+
+set_option maxRecDepth 100000 in
+example : (match createClassString ⟨{}, true⟩ 3 cKw "" false {} with
+    | .ok (text, st') => (text, st'.todos, st'.classGenerics)
+    | .error _ => ("", [], [])) =
+    ("// TODO Safe-DS does not support required but name only parameter assignments.\n" ++
+     "// TODO Safe-DS does not support multiple inheritance.\n" ++
+     "class C<`from`>(\n    x: `from`\n) sub A, `in`", [], ["`from`"]) := by decide
+example : publicSuperNames cKw.superclasses = ["A", "`in`"] := by decide
+example : (ctorKeys cKw, genericKeys cKw, inheritanceKeys cKw) =
     (["REQ_NAME_ONLY"], [], ["multiple_inheritance"]) := by decide
 
 end Examples
